@@ -6821,6 +6821,26 @@ class SFTPServerHandler(SFTPHandler):
         if src and dst:
             read_to_end = read_from_length == 0
 
+            # Only copy data which was in the source when the request
+            # arrived. Otherwise, a copy of a file onto itself can read
+            # back the data it has just written and never reach EOF.
+            attrs = self._server.fstat(src)
+
+            if inspect.isawaitable(attrs):
+                attrs = await cast(Awaitable[_SFTPOSAttrs], attrs)
+
+            attrs: _SFTPOSAttrs
+
+            src_size = attrs.st_size if isinstance(attrs, os.stat_result) \
+                else attrs.size
+
+            if src_size is not None:
+                avail = max(src_size - read_from_offset, 0)
+
+                if read_to_end or read_from_length > avail:
+                    read_from_length = avail
+                    read_to_end = False
+
             while read_to_end or read_from_length:
                 if read_to_end:
                     size = _COPY_DATA_BLOCK_SIZE
